@@ -49,11 +49,33 @@ class LSP:
     # ---- wire -------------------------------------------------------------------
     def _send(self, obj):
         body = json.dumps(obj).encode()
+        frame = b"Content-Length: %d\r\n\r\n" % len(body) + body
+        if getattr(self, "_batch", None) is not None:
+            self._batch.append(frame)
+            return
         try:
-            self.p.stdin.write(b"Content-Length: %d\r\n\r\n" % len(body) + body)
+            self.p.stdin.write(frame)
             self.p.stdin.flush()
         except (BrokenPipeError, OSError):
             self.eof = True
+
+    def batch(self):
+        """context manager: the messages sent inside leave in ONE write (they are in the server's pipe together, as when
+        an editor flushes several notifications at once)"""
+        lsp = self
+
+        class _B:
+            def __enter__(self_):
+                lsp._batch = []
+
+            def __exit__(self_, *a):
+                frames, lsp._batch = lsp._batch, None
+                try:
+                    lsp.p.stdin.write(b"".join(frames))
+                    lsp.p.stdin.flush()
+                except (BrokenPipeError, OSError):
+                    lsp.eof = True
+        return _B()
 
     def _read_message(self, timeout):
         deadline = time.time() + timeout
